@@ -260,13 +260,9 @@ def geom_one(ctx, prog, S, C, I):
     # A2: the limit is a clean edge: the pools together hold exactly
     # NULL_SLOT slots (ids 0..NULL_SLOT-1), not fewer
     if worst is None and P_ <= K:
-        total = 0
-        for p in range(P_):
-            total += (last[1] if (last and p == last[0]) else Cn) if P_ < 5000 else 0
-        if P_ >= 5000:
-            total = (P_ - 1) * Cn + (last[1] if last and last[0] == P_ - 1 else Cn)
-            if last and last[0] < P_ - 1:
-                total += last[1] - Cn
+        total = P_ * Cn
+        if last and 0 <= last[0] < P_:
+            total += last[1] - Cn
         ctx.ob(rule, "slot capacity reaches NULL_SLOT [%s]" % tag, total == N, ap.where,
                "%d pools hold %d slots = NULL_SLOT" % (P_, total) if total == N else
                "%d pools hold %d slots but ids 0..%d are available: a history with more than %d values fails in this "
